@@ -431,10 +431,10 @@ func (st *StateDB) GetWithdrawQueue() *WithdrawQueue {
 
 func (st *StateDB) RemoveWithdrawRecords(index []int) bool {
 	queue, _ := st.getWithdrawQueue()
-	removedRecords := queue.RemoveRecords(index)
-	for _, record := range removedRecords {
-		st.validatorJournal.append(&validatorDelWithdrawChange{address: &record.Validator, prev: record})
-	}
+	prevRecords := make([]*WithdrawRecord, len(queue.Records))
+	copy(prevRecords, queue.Records)
+	queue.RemoveRecords(index)
+	st.validatorJournal.append(&validatorDelWithdrawChange{prevRecords: prevRecords})
 	return true
 }
 
